@@ -40,7 +40,7 @@ def run(ctx, rep):
     from rules.C10 import borrow
     typedid.run(ctx, rep, "C12.a", owners=["index::indexer::Indexer.indexed"])
     n = borrow(rep, ctx, C04, lambda o: o.rule == "C04.b" and ("copy_fast" in o.key or "pack-path" in o.key), "C12.b")
-    rep.floor("C12.b", "borrowed obligations", n, 2)
+    rep.floor("C12.b", "borrowed obligations", n, 1)
     n = borrow(rep, ctx, C03, lambda o: o.rule == "R-ORDER" and re.search(r"/R-ORDER/(03|04|05|06|07|08|09|10)/", o.key), "C12.c")
     rep.floor("C12.c", "borrowed obligations", n, 12)
     # ---- C12.d -------------------------------------------------------------------------------------
@@ -253,7 +253,7 @@ def memo_rule(prog, rep):
         m = re.match(r"^<(.+) as rustic_core::blob::tree::modify::Visitor>::(\w+)$", b.path)
         if m:
             impls.setdefault(m.group(1), {})[m.group(2)] = b
-    rep.floor("C12.h", "Visitor implementations", len(impls), 2)
+    rep.floor("C12.h", "Visitor implementations", len(impls), 1)
     LOOK = re.compile(r"(BTreeMap|HashMap|BTreeSet|HashSet)::<.*>::(get|contains|contains_key|get_mut|entry)$")
     for ty, ms in sorted(impls.items()):
         pre = ms.get("pre_process")
